@@ -112,11 +112,14 @@ pairx == User("C17Pair", << "tg" >>, << vx, KI(1) >>)
 \*   "shared"  equal subexpressions are ONE object used in several places (u = x + y; u*u + f(u)):
 \*             a DAG, the way programs build expressions; pickling preserves the sharing
 \*   "omit"    constructor arguments equal to the field defaults are left out
+\*   "alt"     constructor arguments in their alternative accepted spelling, normalised by the
+\*             constructor itself (a comparison operator given by its name, "lt" for "<")
 Ent(e, kind, vars, rest, np, src, mode) ==
     [e |-> e, kind |-> kind, vars |-> vars, rest |-> rest, np |-> np, src |-> src, mode |-> mode]
 E(e) == Ent(e, "expr", << >>, << >>, FALSE, FALSE, "")
 ESH(e) == Ent(e, "expr", << >>, << >>, FALSE, FALSE, "shared")
 EOM(e) == Ent(e, "expr", << >>, << >>, FALSE, FALSE, "omit")
+EALT(e) == Ent(e, "expr", << >>, << >>, FALSE, FALSE, "alt")
 \* the expression obtained by PARSING the printed form of e ("built from source"): a list
 \* literal then is the parser's own hashable list class, so the entry can be hashed and keyed
 EP(e) == Ent(e, "expr", << >>, << >>, FALSE, TRUE, "")
@@ -285,7 +288,11 @@ Cat == <<
               << "z" >>, << "x", "y" >>),
   \* built from source with the literal words True / False in it (every interpreter mode,
   \* -O included, must be able to build it)
-  (*112*) EP(N("LogAnd", << K(BoolV(TRUE)), Cmp(vx, "<", vy), U("LogNot", K(BoolV(FALSE))) >>))
+  (*112*) EP(N("LogAnd", << K(BoolV(TRUE)), Cmp(vx, "<", vy), U("LogNot", K(BoolV(FALSE))) >>)),
+  \* comparisons whose operator was given by name: the constructor's normalisation must not
+  \* depend on the interpreter's mode
+  (*113*) EALT(Cmp(V("lhs"), "<", KI(0))),                        \* same structure as (17)
+  (*114*) EALT(IfE(Cmp(vx, ">=", vy), N("Sum", << vx, Cmp(vy, "!=", KI(2)) >>), vz))
 >>
 NCat == Len(Cat)
 CatIds == 1..NCat
